@@ -12,6 +12,8 @@
 (***************************************************************************)
 EXTENDS Stream
 
+Msg == INSTANCE Messages
+
 WOk(x) == [k |-> "ok", v |-> x]
 
 (* ---- v1 ---- *)
@@ -131,7 +133,11 @@ DriftFails(b, v) ==
                         \/ (useV1 /\ (CoreV1Differs(a.r, mb, TRUE) \/ a.inc # mb.inc))
                         \/ (~useV1 /\ (CoreV2DiffersFlat(a.r, m2) \/ a.inc # (m2.k = "err" /\ m2.e \in V2!IncompleteKinds)))
                      THEN {<< "DRIFT", "auto-outcome", "auto" >>} ELSE {}
-    IN  v1("v1b", mb, TRUE) \cup v1("v1s", ms, TRUE) \cup v1("v1fh", ms, TRUE) \cup v1("v1fa", ms, FALSE) \cup two \cup views
+        (* Display of the error values (no property constrains the wording) *)
+        msg1(e) == IF v[e].k = "err" /\ v[e].msg # Msg!V1Message(v[e].e) THEN {<< "DRIFT", "v1-error-message", e >>} ELSE {}
+        msg2 == IF v["v2"].k = "err" /\ v["v2"].msg # Msg!V2Message(v["v2"].e, v["v2"].a, v["v2"].b)
+                THEN {<< "DRIFT", "v2-error-message", "v2" >>} ELSE {}
+    IN  msg1("v1b") \cup msg1("v1s") \cup msg2 \cup v1("v1b", mb, TRUE) \cup v1("v1s", ms, TRUE) \cup v1("v1fh", ms, TRUE) \cup v1("v1fa", ms, FALSE) \cup two \cup views
         \cup v1views("v1b", mb) \cup (IF text THEN v1views("v1s", ms) ELSE {}) \cup auto
 
 =============================================================================
